@@ -920,8 +920,9 @@ def _gen_reuse_edit(rng, value, form, dag):
 
 
 def gen_reuse_history(rng, slots, nuses, pick_use, dag=()):
-    """slots: {name: {"value", "form", "salt"}}; pick_use(rng, values, previous use or None) -> [suite, info] of the
-    module's own case on the CURRENT values.  Between two uses every slot is edited with probability 3/4 (at least one)"""
+    """slots: {name: {"value", "form", "salt"[, "frozen"]}}; pick_use(rng, values, previous use or None) -> [suite, info] of
+    the module's own case on the CURRENT values.  Between two uses every slot is edited with probability 3/4 (at least one);
+    a "frozen" slot is never edited (the same object handed over again and again as it is)"""
     values = {s: d["value"] for s, d in slots.items()}
     steps, prev = [], None
     for i in range(nuses):
@@ -929,6 +930,8 @@ def gen_reuse_history(rng, slots, nuses, pick_use, dag=()):
         if i > 0:
             chosen = [s for s in sorted(slots) if rng.random() < .75] or [rng.choice(sorted(slots))]
             for s in chosen:
+                if slots[s].get("frozen"):
+                    continue
                 for _ in range(rng.choice([1, 1, 1, 2])):
                     name, ops = gen_reuse_edit(rng, values[s], slots[s]["form"], dag=s in dag)
                     names.append(name)
